@@ -9,6 +9,6 @@ CONSTANTS
   MaxSnaps = 1
   MaxStmts = 3
   McAlphabet = "small"
-  WithFollower = FALSE
+  Reduced = TRUE
 VIEW McView
 INVARIANTS Converge LogDeterministic RewrittenIffMust
